@@ -20,7 +20,21 @@ Definition cmpZ (op : lcmp) (a b : Z) : bool :=
   end.
 
 (* ---------------------------------------------------------------- events *)
-Record event := mkEv { e_num : Z; e_fac : Z; e_lvl : Z; e_ok : bool; e_id : Z }.
+(* The event number.  log.msg(num=..) accepts ANY object and buffers it as event['num'] (the second strangers' review:
+   e_num : Z alone excluded msg('a', num='x'), whose sort key made incident_declared raise before 7a22019):
+     NumInt      an int -- isinstance(num, int) holds and the value orders as ints do; e_num is its value (the numbers the
+                 logger hands out itself are of this kind);
+     NumOdd      any other object for which isinstance(num, int) is False: 'x', None, 1.5, a list, an object ...;
+                 e_num is then only an identity tag of that object (the harness: a code per value), never an order;
+     NumHostile  an object on which the test isinstance(num, int) ITSELF raises (a __class__ property that raises);
+                 e_num = identity tag.
+   (an int subclass that overrides its comparisons to raise is outside the three kinds; replayed by the oracle.) *)
+Inductive numkind := NumInt | NumOdd | NumHostile.
+
+Record event := mkEv { e_num : Z; e_fac : Z; e_lvl : Z; e_ok : bool; e_id : Z; e_numk : numkind }.
+
+Definition is_int (e : event) : bool := match e_numk e with NumInt => true | _ => false end.
+Definition is_hostile (e : event) : bool := match e_numk e with NumHostile => true | _ => false end.
 
 Definition FAC_NONE : Z := 0.
 Definition FAC_INTERNAL : Z := 1.       (* "foolscap/internal-error" *)
@@ -96,14 +110,34 @@ Definition trim (q : list event) (limit : Z) : option (list event * bool) :=
   end.
 
 (* ---------------------------------------------------------------- incidents *)
-Fixpoint insert_by_num (e : event) (l : list event) : list event :=
-  match l with
-  | [] => [e]
-  | x :: t => if e_num e <=? e_num x then e :: x :: t else x :: insert_by_num e t
+(* `events.sort(key=K)`: K is TRANSLATED from both sites (numkey: incident_sort_key, catchup_sort_key).
+     KeyIntElse d   K = lambda a: a['num'] if isinstance(a['num'], int) else d   (7a22019, d = -1): total on NumInt / NumOdd;
+                    computing the key of a NumHostile event raises (isinstance raises), whatever else the list holds;
+     KeyRaw         K = lambda a: a['num']   (the earlier form): the keys are the objects themselves, and ordering an
+                    object that is not an int against another key raises TypeError as soon as there are two elements
+                    (list.sort compares every element at least once).  Over-approximation under KeyRaw only: non-int
+                    objects that DO order against the other keys (a float among ints, two strings alone) sort fine in
+                    CPython; the model says `raises` for them.  Exact under KeyIntElse. *)
+Definition key_of (k : numkey) (e : event) : Z :=
+  match k with KeyRaw => e_num e | KeyIntElse d => if is_int e then e_num e else d end.
+
+Definition sort_raises (k : numkey) (l : list event) : bool :=
+  match k with
+  | KeyIntElse _ => existsb is_hostile l
+  | KeyRaw => (2 <=? Z.of_nat (List.length l)) && negb (forallb is_int l)
   end.
 
-(* events.sort(key=num): stable *)
-Definition sort_by_num (l : list event) : list event := fold_right insert_by_num [] l.
+Fixpoint insert_by_key (k : numkey) (e : event) (l : list event) : list event :=
+  match l with
+  | [] => [e]
+  | x :: t => if key_of k e <=? key_of k x then e :: x :: t else x :: insert_by_key k e t
+  end.
+
+(* list.sort is stable: events with equal keys (all the non-integer ones under KeyIntElse) keep their buffer order *)
+Definition sort_with (k : numkey) (l : list event) : list event := fold_right (insert_by_key k) [] l.
+
+Definition sort_by_num (l : list event) : list event := sort_with incident_sort_key l.     (* incident_declared *)
+Definition sort_catchup (l : list event) : list event := sort_with catchup_sort_key l.     (* Subscription.subscribe *)
 
 (* an event's line can be produced: the plain encoding works (e_ok) or serialize_to_json_utf8 has the total
    three-stage form (translated shape fact serialize_total) *)
@@ -144,6 +178,9 @@ Definition inc_stage_step (c : cfg) (b : bufs_t) (trig : event) (a : decl_acc) (
   | IsHeader => if enc trig then a else mkAcc (a_lines a) (a_registered a) (a_timer a) (a_finished a) true
   | IsSubscribe => if c_trailing c then mkAcc (a_lines a) true (a_timer a) (a_finished a) false else a
   | IsSnapshot =>
+    if sort_raises incident_sort_key (all_buffered b)          (* events.sort raises: nothing of the snapshot is written *)
+    then mkAcc (a_lines a) (a_registered a) (a_timer a) (a_finished a) true
+    else
     let '(w, ok) := write_all (sort_by_num (all_buffered b)) in
     mkAcc (a_lines a ++ w) (a_registered a) (a_timer a) (a_finished a) (negb ok)
   | IsFinish => if c_trailing c then mkAcc (a_lines a) (a_registered a) true (a_finished a) false
@@ -235,7 +272,8 @@ Definition end_of_call (s : st) (notes : list event) : st :=
 Definition fallback_id (id : Z) : Z := - id - 1.
 
 Inductive op :=
-| Msg (num : option Z) (fac lvl : Z) (ok reprok : bool) (id : Z)   (* log.msg(...) whose _msg reaches add_event *)
+| Msg (num : option (Z * numkind)) (fac lvl : Z) (ok reprok : bool) (id : Z)
+    (* log.msg(...) whose _msg reaches add_event; num = Some (value or identity tag, kind): the caller passed num= *)
 | MsgBad (reprok : bool) (id : Z)       (* _msg raises before add_event: uncomparable level, unhashable facility, str() fails *)
 | SetSize (fac lvl n : Z)
 | SetThr (fac lvl : Z)
@@ -247,25 +285,29 @@ Definition next_num (seq : Z) : Z * Z :=        (* Count.next, translated *)
 Definition init_seq : Z :=
   match count_init count_firstval_default 0 with Ok (_, n) => n | Exc _ => 0 end.
 
-Definition fallback (c : cfg) (s : st) (num id : Z) (reprok : bool) : st * list event :=
-  if reprok then let '(s2, _, n2) := msg_inner c s (mkEv num FAC_INTERNAL fallback_level true (fallback_id id)) in (s2, n2)
+(* the kind of the number of a call: the logger's own numbers are ints *)
+Definition kind_of (numo : option (Z * numkind)) : numkind := match numo with Some n => snd n | None => NumInt end.
+
+(* the internal-error event that replaces a failed _msg carries the SAME num object (num=num) *)
+Definition fallback (c : cfg) (s : st) (num id : Z) (reprok : bool) (k : numkind) : st * list event :=
+  if reprok then let '(s2, _, n2) := msg_inner c s (mkEv num FAC_INTERNAL fallback_level true (fallback_id id) k) in (s2, n2)
   else (s, []).
 
 (* the value returned to the caller: Some num; None would mean "an exception escaped msg()" *)
 Definition step (c : cfg) (s : st) (o : op) : st * option Z :=
   match o with
   | Msg numo fac lvl ok reprok id =>
-    let '(num, seq') := match numo with Some n => (n, s_seq s) | None => next_num (s_seq s) end in
+    let '(num, seq') := match numo with Some n => (fst n, s_seq s) | None => next_num (s_seq s) end in
     let s0 := mkSt seq' (s_sizes s) (s_thr s) (s_bufs s) (s_inc s) in
-    let '(s1, raised, n1) := msg_inner c s0 (mkEv num fac lvl ok id) in
+    let '(s1, raised, n1) := msg_inner c s0 (mkEv num fac lvl ok id (kind_of numo)) in
     if raised then
-      if msg_catch_all then let '(s2, n2) := fallback c s1 num id reprok in (end_of_call s2 (n1 ++ n2), Some num)
+      if msg_catch_all then let '(s2, n2) := fallback c s1 num id reprok (kind_of numo) in (end_of_call s2 (n1 ++ n2), Some num)
       else (end_of_call s1 n1, None)
     else (end_of_call s1 n1, Some num)
   | MsgBad reprok id =>
     let '(num, seq') := next_num (s_seq s) in
     let s0 := mkSt seq' (s_sizes s) (s_thr s) (s_bufs s) (s_inc s) in
-    if msg_catch_all then let '(s2, n2) := fallback c s0 num id reprok in (end_of_call s2 n2, Some num)
+    if msg_catch_all then let '(s2, n2) := fallback c s0 num id reprok NumInt in (end_of_call s2 n2, Some num)
     else (s0, None)
   | SetSize f l n => (mkSt (s_seq s) (sset f l n (s_sizes s)) (s_thr s) (s_bufs s) (s_inc s), None)
   | SetThr f l => (mkSt (s_seq s) (s_sizes s) (aset f l (s_thr s)) (s_bufs s) (s_inc s), None)
@@ -360,9 +402,14 @@ Definition sub_run (maxq maxfl : Z) (ops : list sop) : sub := fold_left (sub_ste
 (* ---------------------------------------------------------------- subscribe(catch_up) *)
 (* Subscription.subscribe: the catch-up batch = every buffered event sorted by number goes straight to the observer
    (callRemoteOnly: no Deferred, not counted in flight); the subscription itself starts with an empty queue *)
-Definition sub_subscribe (catch_up : bool) (b : bufs_t) : sub * list event :=
+(* -> (subscription, catch-up batch, raised).  subscribe() registers send() as an immediate observer FIRST; when the
+   sort raises the subscription stays registered but the subscriber is handed no catch-up batch (subscribe runs from the
+   eventual queue: the exception is logged there) *)
+Definition sub_subscribe (catch_up : bool) (b : bufs_t) : sub * list event * bool :=
   match catchup with
-  | CatchupDirect => (sub_init, if catch_up then sort_by_num (all_buffered b) else [])
+  | CatchupDirect =>
+    if catch_up && sort_raises catchup_sort_key (all_buffered b) then (sub_init, [], true)
+    else (sub_init, if catch_up then sort_catchup (all_buffered b) else [], false)
   end.
 
 (* ---------------------------------------------------------------- written files read back *)
@@ -430,17 +477,17 @@ Definition tag (s : st) (l : list event) : list (Z * event) := map (fun e => (re
 Definition call_nt (c : cfg) (s : st) (o : op) : st * option Z * list (Z * event) :=
   match o with
   | Msg numo fac lvl ok reprok id =>
-    let '(num, seq') := match numo with Some n => (n, s_seq s) | None => next_num (s_seq s) end in
+    let '(num, seq') := match numo with Some n => (fst n, s_seq s) | None => next_num (s_seq s) end in
     let s0 := mkSt seq' (s_sizes s) (s_thr s) (s_bufs s) (s_inc s) in
-    let '(s1, raised, n1) := msg_inner c s0 (mkEv num fac lvl ok id) in
+    let '(s1, raised, n1) := msg_inner c s0 (mkEv num fac lvl ok id (kind_of numo)) in
     if raised then
-      if msg_catch_all then let '(s2, n2) := fallback c s1 num id reprok in (set_zombie s2 false, Some num, tag s0 n1 ++ tag s1 n2)
+      if msg_catch_all then let '(s2, n2) := fallback c s1 num id reprok (kind_of numo) in (set_zombie s2 false, Some num, tag s0 n1 ++ tag s1 n2)
       else (set_zombie s1 false, None, tag s0 n1)
     else (set_zombie s1 false, Some num, tag s0 n1)
   | MsgBad reprok id =>
     let '(num, seq') := next_num (s_seq s) in
     let s0 := mkSt seq' (s_sizes s) (s_thr s) (s_bufs s) (s_inc s) in
-    if msg_catch_all then let '(s2, n2) := fallback c s0 num id reprok in (set_zombie s2 false, Some num, tag s0 n2)
+    if msg_catch_all then let '(s2, n2) := fallback c s0 num id reprok NumInt in (set_zombie s2 false, Some num, tag s0 n2)
     else (s0, None, [])
   | SetSize _ _ _ | SetThr _ _ => (fst (step c s o), None, [])
   | Timer => (s, None, [])
@@ -551,20 +598,20 @@ Definition msg_sends (c : cfg) (s : st) (e : event) : list event :=
   if cmpZ threshold_drop_cmp (e_lvl e) (threshold_of (s_thr s) (e_fac e)) then []
   else if immediate_sees c (s_sizes s) (s_bufs s) (s_inc s) e then [e] else [].
 
-Definition fallback_event (num id : Z) : event := mkEv num FAC_INTERNAL fallback_level true (fallback_id id).
+Definition fallback_event (num id : Z) (k : numkind) : event := mkEv num FAC_INTERNAL fallback_level true (fallback_id id) k.
 
 Definition step_sends (c : cfg) (s : st) (o : op) : list event :=
   match o with
   | Msg numo fac lvl ok reprok id =>
-    let '(num, seq') := match numo with Some n => (n, s_seq s) | None => next_num (s_seq s) end in
+    let '(num, seq') := match numo with Some n => (fst n, s_seq s) | None => next_num (s_seq s) end in
     let s0 := mkSt seq' (s_sizes s) (s_thr s) (s_bufs s) (s_inc s) in
-    let '(s1, raised, _) := msg_inner c s0 (mkEv num fac lvl ok id) in
-    msg_sends c s0 (mkEv num fac lvl ok id) ++
-    (if raised && msg_catch_all && reprok then msg_sends c s1 (fallback_event num id) else [])
+    let '(s1, raised, _) := msg_inner c s0 (mkEv num fac lvl ok id (kind_of numo)) in
+    msg_sends c s0 (mkEv num fac lvl ok id (kind_of numo)) ++
+    (if raised && msg_catch_all && reprok then msg_sends c s1 (fallback_event num id (kind_of numo)) else [])
   | MsgBad reprok id =>
     let '(num, seq') := next_num (s_seq s) in
     let s0 := mkSt seq' (s_sizes s) (s_thr s) (s_bufs s) (s_inc s) in
-    if msg_catch_all && reprok then msg_sends c s0 (fallback_event num id) else []
+    if msg_catch_all && reprok then msg_sends c s0 (fallback_event num id NumInt) else []
   | _ => []
   end.
 
@@ -585,3 +632,6 @@ Definition sends_of (sops : list sop) : list Z := flat_map (fun o => match o wit
 
 (* calls that leave the numbering to the logger (num= is a hook for replaying foreign events) *)
 Definition auto_only (o : op) : Prop := match o with Msg (Some _) _ _ _ _ _ => False | _ => True end.
+
+(* calls whose num= (if any) is not an object on which isinstance(.., int) raises *)
+Definition op_not_hostile (o : op) : Prop := match o with Msg (Some (_, NumHostile)) _ _ _ _ _ => False | _ => True end.
